@@ -329,7 +329,7 @@ func runReq(t *testing.T, cfg reqCfg) sim.Result {
 				p.Release()
 			}
 		}
-		c.step("adv 1000s")
+		c.step("adv 600s")
 		s.Wait()
 		g := sim.Census()
 		sort.Strings(g)
@@ -449,11 +449,34 @@ func reqFaultEnum() []reqCfg {
 	return out
 }
 
+func reqDeadline() []reqCfg {
+	var out []reqCfg
+	us := time.Microsecond
+	for _, d := range []time.Duration{1 * us, time.Millisecond, time.Second, 300 * time.Second} {
+		just := (d - us).String()
+		o := reqCtxOpt{Retry: 0, SendExp: d, RecvExp: d}
+		out = append(out,
+			// no peer: Send blocks until exactly its deadline; with a peer it completes at once and the (unstopped) timer must not hurt
+			reqCfg{Opts: []reqCtxOpt{o, o}, Steps: []string{"send c0", "adv " + just, "adv 1us", "conn", "send c1", "recv c1", "adv " + just, "adv 1us", "send c0", "reply p1 cur c0", "adv " + d.String(), "recv c0"}},
+			// Recv blocks until exactly its deadline; a reply in time is delivered
+			reqCfg{Opts: []reqCtxOpt{{Retry: 0, RecvExp: d}}, Steps: []string{"conn", "send c0", "recv c0", "adv " + just, "reply p1 cur c0", "adv 1us", "send c0", "recv c0", "adv " + just, "adv 1us", "recv c0"}},
+		)
+	}
+	out = append(out,
+		reqCfg{Opts: []reqCtxOpt{{Retry: time.Second, BestEffort: true}}, Steps: []string{"send c0", "send c0", "conngated", "send c0", "send c0", "adv 1s", "release p1", "recv c0", "reply p1 cur c0"}},
+		reqCfg{Opts: []reqCtxOpt{{Retry: time.Second, FailNoPeers: true}, {Retry: time.Second}}, Steps: []string{"send c0", "recv c0", "conn", "send c0", "recv c0", "send c1", "recv c1", "drop p1", "send c0", "conn", "send c0", "recv c0", "drop p2"}},
+	)
+	return out
+}
+
 func TestReq(t *testing.T) {
 	out := newOut(t, "req")
 	defer out.Close()
 	rng := rand.New(rand.NewSource(seed()))
 	cfgs := reqScripted()
+	if os.Getenv("VERIF_MIX") == "deadline" {
+		cfgs = reqDeadline()
+	}
 	if os.Getenv("VERIF_REQ_MIX") == "faults" {
 		fe := reqFaultEnum()
 		if !thorough() {
